@@ -83,3 +83,177 @@ def _mentions_name(e, name):
         if isinstance(n, ast.Attribute) and ast.unparse(n) == name:
             return True
     return False
+
+
+def _resolve_callee(ix, mod, fn, call):
+    from sa.index import FuncInfo, ClassInfo
+    f = call.func
+    try:
+        if isinstance(f, ast.Attribute) and isinstance(f.value, ast.Name) and f.value.id == 'self':
+            for c in mod.classes.values():
+                if any(g.node is fn for g in c.methods.values()):
+                    return ix.resolve_method(c, f.attr)
+        if isinstance(f, ast.Attribute) and isinstance(f.value, ast.Name):
+            ent = ix.resolve_expr(mod, f.value)
+            if isinstance(ent, ClassInfo):
+                return ix.resolve_method(ent, f.attr)
+        ent = ix.resolve_expr(mod, f)
+        if isinstance(ent, FuncInfo):
+            return ent
+    except Exception:
+        return None
+    return None
+
+
+def _lockstep(callee, i, j):
+    """the callee returns a tuple whose components i and j are local lists that are appended to in lockstep"""
+    rets = [r for r in ast.walk(callee.node) if isinstance(r, ast.Return) and isinstance(r.value, ast.Tuple) and len(r.value.elts) > max(i, j)]
+    if not rets:
+        return False
+    for r in rets:
+        x, y = r.value.elts[i], r.value.elts[j]
+        if not (isinstance(x, ast.Name) and isinstance(y, ast.Name)):
+            return False
+        X, Y = x.id, y.id
+        for node in ast.walk(callee.node):
+            for field in ('body', 'orelse', 'finalbody'):
+                blk = getattr(node, field, None)
+                if not (isinstance(blk, list) and blk and isinstance(blk[0], ast.stmt)):
+                    continue
+                cx = sum(1 for st in blk if isinstance(st, ast.Expr) and isinstance(st.value, ast.Call) and isinstance(st.value.func, ast.Attribute)
+                         and st.value.func.attr in ('append', 'insert') and isinstance(st.value.func.value, ast.Name) and st.value.func.value.id == X)
+                cy = sum(1 for st in blk if isinstance(st, ast.Expr) and isinstance(st.value, ast.Call) and isinstance(st.value.func, ast.Attribute)
+                         and st.value.func.attr in ('append', 'insert') and isinstance(st.value.func.value, ast.Name) and st.value.func.value.id == Y)
+                if cx != cy:
+                    return False
+        # no other mutation of either list
+        for c in ast.walk(callee.node):
+            if isinstance(c, ast.Call) and isinstance(c.func, ast.Attribute) and isinstance(c.func.value, ast.Name) and c.func.value.id in (X, Y) \
+                    and c.func.attr in ('pop', 'remove', 'extend', 'clear', 'sort'):
+                return False
+    return True
+
+
+def check_parallel_index(ix, rep, prefixes, label, rule='R-INDEX'):
+    """dense-time sample lists have their own lengths (equal consecutive values are merged per list): inside `for i in range(len(A))` /
+    `for i, x in enumerate(A)` only A may be indexed by i -- another list indexed by the same i runs out of range (or pairs up samples of
+    different instants) as soon as the two were compressed differently.  Accepted: B bound together with A by one tuple assignment from a
+    single call (`a, b = f(..)` does not make them equal either, so not accepted), B is A, or B is a slice / copy of A."""
+    n = 0
+    for mod in sorted(ix.modules.values(), key=lambda m: m.rel):
+        if not any(mod.rel.startswith(p) for p in prefixes):
+            continue
+        for fn in ast.walk(mod.tree):
+            if not isinstance(fn, ast.FunctionDef):
+                continue
+            copies = {}
+            for st in ast.walk(fn):
+                if isinstance(st, ast.Assign) and len(st.targets) == 1 and isinstance(st.targets[0], ast.Name):
+                    v = st.value
+                    if isinstance(v, ast.Name):
+                        copies[st.targets[0].id] = v.id
+                    elif isinstance(v, ast.Call) and isinstance(v.func, ast.Name) and v.func.id == 'list' and len(v.args) == 1 and isinstance(v.args[0], ast.Name):
+                        copies[st.targets[0].id] = v.args[0].id
+
+            def root(nm):
+                seen = set()
+                while nm in copies and nm not in seen:
+                    seen.add(nm)
+                    nm = copies[nm]
+                return nm
+            # lists returned together by one call that fills them in lockstep (every block that appends to one appends to the other) are equally long
+            same_len = set()
+            for st in ast.walk(fn):
+                if isinstance(st, ast.Assign) and len(st.targets) == 1 and isinstance(st.targets[0], ast.Tuple) and isinstance(st.value, ast.Call) \
+                        and all(isinstance(e, ast.Name) for e in st.targets[0].elts):
+                    callee = _resolve_callee(ix, mod, fn, st.value)
+                    if callee is None:
+                        continue
+                    names = [e.id for e in st.targets[0].elts]
+                    for a_ in range(len(names)):
+                        for b_ in range(a_ + 1, len(names)):
+                            if _lockstep(callee, a_, b_):
+                                same_len.add(frozenset((names[a_], names[b_])))
+            for lp in ast.walk(fn):
+                if not isinstance(lp, ast.For):
+                    continue
+                A = idx = None
+                it = lp.iter
+                if isinstance(it, ast.Call) and isinstance(it.func, ast.Name) and it.func.id == 'range' and len(it.args) == 1 and isinstance(it.args[0], ast.Call) \
+                        and isinstance(it.args[0].func, ast.Name) and it.args[0].func.id == 'len' and isinstance(it.args[0].args[0], ast.Name) and isinstance(lp.target, ast.Name):
+                    A, idx = it.args[0].args[0].id, lp.target.id
+                elif isinstance(it, ast.Call) and isinstance(it.func, ast.Name) and it.func.id == 'enumerate' and len(it.args) == 1 and isinstance(it.args[0], ast.Name) \
+                        and isinstance(lp.target, ast.Tuple) and len(lp.target.elts) == 2 and isinstance(lp.target.elts[0], ast.Name):
+                    A, idx = it.args[0].id, lp.target.elts[0].id
+                if A is None:
+                    continue
+                others = []
+                for x in ast.walk(lp):
+                    if isinstance(x, ast.Subscript) and isinstance(x.value, ast.Name) and isinstance(x.slice, ast.Name) and x.slice.id == idx and root(x.value.id) != root(A) \
+                            and frozenset((root(x.value.id), root(A))) not in same_len and frozenset((x.value.id, A)) not in same_len:
+                        others.append(x)
+                n += 1
+                sym = fn.name
+                slot = '%s:parallel-index:%s@%d' % (label, A, len([1 for q in ast.walk(fn) if isinstance(q, ast.For) and q.lineno < lp.lineno]))
+                if others:
+                    rep.fail(rule, mod.rel, sym, slot, 'the loop runs over the positions of `%s` and indexes `%s` with the same counter: the two sample lists are compressed independently '
+                             '(equal consecutive values are merged), so they differ in length -- IndexError, or samples of different instants paired' % (A, others[0].value.id), others[0].lineno)
+                else:
+                    rep.ok(rule, mod.rel, sym, slot, 'only the list the loop runs over is indexed by the loop counter', lp.lineno)
+    return n
+
+
+LAZY = ('map', 'zip', 'filter', 'reversed', 'iter', 'enumerate', 'itertools.accumulate', 'itertools.chain', 'itertools.islice', 'accumulate', 'chain', 'islice')
+
+
+def check_handlers_return_lists(ix, rep, mon, rule='R-SHAPE'):
+    """what a handler of an offline visitor returns is consumed by every other handler as a *list*: len(), slices, index, reversed(), a second
+    pass.  A generator expression or a lazy iterator (map, zip, filter, reversed, accumulate) works as long as the parent only iterates once
+    -- `out = a xor b` -- and raises TypeError under any operator that needs a sequence."""
+    from sa import dispatch as D
+    d = D.dispatch_of(ix, mon.cls)
+    n = 0
+    seen = set()
+    for nc in D.node_classes(ix):
+        meth, _ = d.method_for(nc, ix)
+        if not meth:
+            continue
+        cat, info, f = D.classify(ix, mon.cls, meth)
+        if cat != 'compute' or id(f) in seen:
+            continue
+        seen.add(id(f))
+        n += 1
+        rep.analysed(f)
+        defs = {}
+        for st in ast.walk(f.node):
+            if isinstance(st, ast.Assign) and len(st.targets) == 1 and isinstance(st.targets[0], ast.Name):
+                defs.setdefault(st.targets[0].id, []).append(st.value)
+
+        def lazy(e, depth=0):
+            if isinstance(e, ast.GeneratorExp):
+                return 'a generator expression'
+            if isinstance(e, ast.Call):
+                fn = ast.unparse(e.func)
+                if fn in LAZY:
+                    return 'the lazy iterator %s(...)' % fn
+            if isinstance(e, ast.Name) and depth < 3:
+                for v in defs.get(e.id, []):
+                    r = lazy(v, depth + 1)
+                    if r:
+                        return r
+            return None
+        bad = None
+        for r in ast.walk(f.node):
+            if isinstance(r, ast.Return) and r.value is not None:
+                vals = r.value.elts if isinstance(r.value, ast.Tuple) else [r.value]
+                for v in vals:
+                    w = lazy(v)
+                    if w:
+                        bad = (r, w)
+        slot = '%s:returns-list:%s' % (mon.kind, f.node.name)
+        if bad:
+            rep.fail(rule, f.module.rel, f.qual, slot, 'the handler returns %s: a parent that takes len(), a slice, an index or reversed() of its operand (always, eventually, until, '
+                     'since, every bounded operator, next, rise, fall, a comparison) raises TypeError' % bad[1], bad[0].lineno)
+        else:
+            rep.ok(rule, f.module.rel, f.qual, slot, 'returns a list', f.node.lineno)
+    return n
